@@ -185,8 +185,10 @@ OtherNeverSecure ==
 NoBoundReject == rejects = 0
 
 \* C07 with a second client around: the exchange completes between A and one of the clients
+\* (a version 2 session has no instance tags)
 Paired(q) == /\ st["A"].ms = "enc" /\ st[q].ms = "enc" /\ st["A"].sess = st[q].sess /\ st["A"].sess # <<0, 0>>
-             /\ st["A"].ttag = TagOf(q) /\ st[q].ttag = 1 /\ st["A"].rev # st[q].rev
+             /\ st["A"].ver = st[q].ver
+             /\ (st["A"].ver = 3 => (st["A"].ttag = TagOf(q) /\ st[q].ttag = 1)) /\ st["A"].rev # st[q].rev
 SomePair == \E q \in Insts : Paired(q)
 Completes == <>[]SomePair
 Started == \E p \in Parties : st[p].auth \notin {"nil", "none"} \/ st[p].ms = "enc"
